@@ -34,6 +34,14 @@ def run(R, env):
     for b in prog.fn_bodies(CRATE):
         for bi, si, t in aggregates(Ctx(b), lambda adt, var: adt.endswith("cosmwasm_std::SubMsg")):
             wrappers[b.key] = (b, bi, si, t)
+    # (the SubMsg may also be built with cosmwasm_std's constructors: SubMsg::reply_always(msg, id) & co.)
+    CTOR_REPLY = {"reply_always": "Always", "reply_on_success": "Success", "reply_on_error": "Error", "new": "Never", "reply_never": "Never"}
+    for b in prog.fn_bodies(CRATE):
+        cb_ = Ctx(b)
+        for bi, t_, args_ in call_sites(cb_, lambda nm: nm.startswith("cosmwasm_std::SubMsg::") and nm.split("::")[-1] in CTOR_REPLY):
+            meth = (call_name(t_) or "").split("::")[-1]
+            flds = (("fld", "msg", args_[0]),) + ((("fld", "id", args_[1]),) if len(args_) > 1 else (("fld", "id", ("const", "int", 0)),)) + (("fld", "reply_on", ("agg", "cosmwasm_std::ReplyOn", CTOR_REPLY[meth], ())),)
+            wrappers.setdefault(b.key, (b, bi, len(b.blocks[bi]["stmts"]), ("agg", "cosmwasm_std::SubMsg", "SubMsg", flds)))
     # who calls the constructor(s)
     for mk in makers:
         callers = set()
